@@ -1,11 +1,13 @@
 package harness
 
 import (
+	"context"
+	"fmt"
+	"sync"
 	"testing"
 
 	"verif/harness/cfggen"
 	"verif/harness/ev"
-	"verif/harness/refsrv"
 
 	"pgregory.net/rapid"
 )
@@ -19,6 +21,33 @@ type c10Case struct {
 	Scope   string       `json:"scope"`
 	Scripts []authScript `json:"scripts"`
 	Order   []int        `json:"order"` // which script sends its next packet, step by step
+	// Then, if set: this configuration is loaded into the running server after the history above, and a
+	// second history runs on a new connection and is judged by it (a password changed by a reload, a user
+	// moved to another scope, an authenticator removed: what held before the reload must not stick)
+	Then *c10Phase `json:"then,omitempty"`
+}
+
+type c10Phase struct {
+	World   cfggen.World `json:"world"`
+	Scope   string       `json:"scope"`
+	Scripts []authScript `json:"scripts"`
+	Order   []int        `json:"order"`
+}
+
+// swapKeychain is a keychain whose content is replaced when the configuration is.
+type swapKeychain struct {
+	mu sync.RWMutex
+	m  map[string][]byte
+}
+
+func (k *swapKeychain) set(m map[string][]byte) { k.mu.Lock(); k.m = m; k.mu.Unlock() }
+func (k *swapKeychain) GetSecret(ctx context.Context, name, group string) ([]byte, error) {
+	k.mu.RLock()
+	defer k.mu.RUnlock()
+	if h, ok := k.m[name]; ok {
+		return h, nil
+	}
+	return nil, fmt.Errorf("no keychain entry for %q", name)
 }
 
 func genAuthHistory(t *rapid.T, w cfggen.World, scope string, maxScripts int) ([]authScript, []int) {
@@ -78,6 +107,12 @@ func genC10(t *rapid.T) c10Case {
 	c := c10Case{World: cfggen.GenWorld(t), Format: rapid.SampledFrom([]string{"yaml", "yaml", "json"}).Draw(t, "format")}
 	c.Scope = pickServingScope(t, c.World)
 	c.Scripts, c.Order = genAuthHistory(t, c.World, c.Scope, 3)
+	if rapid.IntRange(0, 2).Draw(t, "then_reload") == 0 {
+		ph := c10Phase{World: cfggen.GenWorld(t)}
+		ph.Scope = pickServingScope(t, ph.World)
+		ph.Scripts, ph.Order = genAuthHistory(t, ph.World, ph.Scope, 3)
+		c.Then = &ph
+	}
 	return c
 }
 
@@ -95,7 +130,8 @@ func runC10(t failer, c c10Case) (events []authEvent) {
 	fail := func(sig, format string, args ...interface{}) {
 		violation(t, "C10", "authen", "C10:"+sig, c, format, args...)
 	}
-	env, err := startRef(c.World.Cfg, refOpts{format: c.Format, keychain: refsrv.MapKeychain(c.World.KeychainBytes()), recover: true})
+	kc := &swapKeychain{m: c.World.KeychainBytes()}
+	env, err := startRef(c.World.Cfg, refOpts{format: c.Format, keychain: kc, recover: true})
 	if err != nil {
 		ev.Class("config-refused")
 		return nil
@@ -105,62 +141,83 @@ func runC10(t failer, c c10Case) (events []authEvent) {
 			t.Fatalf("%v", e)
 		}
 	}()
-	d, err := env.dial(cfggen.AddrIn(c.Scope, 9).IP(), 4242)
-	if err != nil {
-		t.Fatalf("%v", err)
-	}
-	if d.c.Closed() {
-		t.Fatalf("HARNESS-BUG: connection from a serving scope was refused")
-	}
-	r := newAuthRunner(d, scopeKey(c.Scope), c.Scripts)
-	exp := make([][]byte, len(c.Scripts))
-	sound := make([]*authSound, len(c.Scripts))
-	for i, sc := range c.Scripts {
-		exp[i] = destined(c.World, c.Scope, sc)
-		sound[i] = newAuthSound()
-	}
-	over := make([]bool, len(c.Scripts)) // the script's session is over on the server (final status seen last)
-	order := append([]int{}, c.Order...)
-	postponed := 0
-	for k := 0; k < len(order); k++ {
-		i := order[k]
-		pktIdx := r.next[i]
-		if pktIdx >= len(c.Scripts[i].Pkts) {
-			continue
-		}
-		if a := c.Scripts[i].After; a > 0 && pktIdx == 0 {
-			if !over[a-1] {
-				// the session whose id would be reused is still waiting for a continuation (reusing
-				// the id now would be a sequence violation, not this property's business): try again
-				// at the end, a bounded number of times
-				if postponed++; postponed <= 2*len(c.Order) && r.next[a-1] < len(c.Scripts[a-1].Pkts) {
-					order = append(order, i)
-				}
-				continue
-			}
-			r.next[a-1] = len(c.Scripts[a-1].Pkts) // the id now belongs to this script
-		}
-		justified := sound[i].passJustified(c.World, c.Scope, c.Scripts[i].Pkts[pktIdx])
-		e, ok, err := r.step(i)
+	runPhase := func(phase int, w cfggen.World, scope string, scripts []authScript, ord []int) {
+		d, err := env.dial(cfggen.AddrIn(scope, 9).IP(), 4242+phase)
 		if err != nil {
 			t.Fatalf("%v", err)
 		}
-		if !ok {
-			continue
-		}
-		events = append(events, e)
-		if e.Status == stPass && !justified {
-			fail("unjustified-pass", "script %d (%s) packet %d answered PASS, but the session did not present a verifying password of a user of scope %s by a supported method", i, c.Scripts[i].Flavour, pktIdx, c.Scope)
-		}
-		if exp[i] != nil {
-			if e.Replies != 1 || e.Status != exp[i][pktIdx] {
-				fail("correct-login-not-passed", "script %d (%s): a well-formed login with the right password must be answered %v; packet %d got %d replies, status %d (%q)", i, c.Scripts[i].Flavour, exp[i], pktIdx, e.Replies, e.Status, e.Msg)
+		if d.c.Closed() {
+			if phase > 0 {
+				ev.Class("scope-does-not-serve-after-reload")
+				return
 			}
+			t.Fatalf("HARNESS-BUG: connection from a serving scope was refused")
 		}
-		over[i] = e.Replies == 1 && finalStatus(e.Status)
-		if e.Replies != 1 || finalStatus(e.Status) {
+		r := newAuthRunner(d, scopeKey(scope), scripts)
+		exp := make([][]byte, len(scripts))
+		sound := make([]*authSound, len(scripts))
+		for i, sc := range scripts {
+			exp[i] = destined(w, scope, sc)
 			sound[i] = newAuthSound()
 		}
+		over := make([]bool, len(scripts)) // the script's session is over on the server (final status seen last)
+		order := append([]int{}, ord...)
+		postponed := 0
+		for k := 0; k < len(order); k++ {
+			i := order[k]
+			pktIdx := r.next[i]
+			if pktIdx >= len(scripts[i].Pkts) {
+				continue
+			}
+			if a := scripts[i].After; a > 0 && pktIdx == 0 {
+				if !over[a-1] {
+					// the session whose id would be reused is still waiting for a continuation (reusing
+					// the id now would be a sequence violation, not this property's business): try again
+					// at the end, a bounded number of times
+					if postponed++; postponed <= 2*len(ord) && r.next[a-1] < len(scripts[a-1].Pkts) {
+						order = append(order, i)
+					}
+					continue
+				}
+				r.next[a-1] = len(scripts[a-1].Pkts) // the id now belongs to this script
+			}
+			justified := sound[i].passJustified(w, scope, scripts[i].Pkts[pktIdx])
+			e, ok, err := r.step(i)
+			if err != nil {
+				t.Fatalf("%v", err)
+			}
+			if !ok {
+				continue
+			}
+			events = append(events, e)
+			if e.Status == stPass && !justified {
+				fail("unjustified-pass", "script %d (%s) packet %d answered PASS, but the session did not present a verifying password of a user of scope %s by a supported method", i, scripts[i].Flavour, pktIdx, scope)
+			}
+			if exp[i] != nil {
+				if e.Replies != 1 || e.Status != exp[i][pktIdx] {
+					fail("correct-login-not-passed", "script %d (%s): a well-formed login with the right password must be answered %v; packet %d got %d replies, status %d (%q)", i, scripts[i].Flavour, exp[i], pktIdx, e.Replies, e.Status, e.Msg)
+				}
+			}
+			over[i] = e.Replies == 1 && finalStatus(e.Status)
+			if e.Replies != 1 || finalStatus(e.Status) {
+				sound[i] = newAuthSound()
+			}
+		}
+	}
+	runPhase(0, c.World, c.Scope, c.Scripts, c.Order)
+	if c.Then != nil {
+		c.Then.World.Cfg.Restore()
+		doc := c.Then.World.Cfg.YAML()
+		if c.Format == "json" {
+			doc = c.Then.World.Cfg.JSON()
+		}
+		kc.set(c.Then.World.KeychainBytes())
+		if err := env.stack.Reload(doc); err != nil {
+			ev.Class("reload-refused")
+			return events
+		}
+		ev.Class("second-history-after-reload")
+		runPhase(1, c.Then.World, c.Then.Scope, c.Then.Scripts, c.Then.Order)
 	}
 	return events
 }
